@@ -11,8 +11,11 @@ import vlib
 from vlib import VI, VB, VS, VL
 import regen_c12
 
+sys.set_int_max_str_digits(0)
 PID = "C12"
-THEOREMS = []          # filled in below (kept in one place so that the list and the files cannot drift apart)
+THEOREMS = ["area_export_size", "area_seal_marks", "area_parse_export_id", "registers_parse_export_id", "area_value_in_binary",
+            "computed_hold", "computed_methods_meet_relation", "tz_export_size", "tz_parse_export_id", "all_areas_swept",
+            "all_areas_wf", "group_value_truncated_refuted"]
 PFR_KINDS = ("cmpa", "cfpa", "romcfg", "cmactable")
 SKEY = {"bca": "bca", "fcf": "fcf", "fcb": "fcb_settings", "xmcd": "xmcd_settings", "tz": "trustZonePreset", "fuses": "registers"}
 SEAL = b"SEAL"
@@ -195,6 +198,13 @@ def unpk(v):
             return ("b", x[2][1].to_bytes(x[1][1], "big"))
         if len(x) == 3 and x[0] == ("i", -6) and x[1][0] == "i" and x[2][0] == "i":
             return ("s", x[2][1].to_bytes(x[1][1], "big").decode("latin-1"))
+        if len(x) == 3 and x[0] in (("i", -7), ("i", -8)) and x[1][0] == "i" and x[2][0] == "l":
+            ln, out = x[1][1], b""
+            for gi, g in enumerate(x[2][1]):
+                out += g[1].to_bytes(min(7, ln - 7 * gi), "big")
+            return ("b", out) if x[0][1] == -7 else ("s", out.decode("latin-1"))
+        if len(x) == 2 and x[0] == ("i", -9) and x[1][0] == "l":
+            return ("s", "".join(chr(c[1]) for c in x[1][1]))
         return ("l", [unpk(y) for y in x])
     return v
 
@@ -388,9 +398,10 @@ def gen_field_value(rng, f):
     bits = rnd_width_value(rng, w)
     val = num_form(rng, bits << cnt)
     if isinstance(val, str) and enum_const(f, val) is not None:
-        bits = enum_const(f, val) >> cnt          # the loader looks the string up among the enum names first
-        if not 0 <= bits < (1 << w):
-            return (bits << cnt), rnd_width_value(rng, w) if False else ((enum_const(f, val) >> cnt) & ((1 << w) - 1))
+        e = enum_const(f, val) >> cnt             # the loader looks the string up among the enum names first
+        if 0 <= e < (1 << w):
+            return val, e
+        return bits << cnt, bits
     return val, bits
 
 
@@ -873,6 +884,101 @@ def layout_class(d, lay, what):
     return "plain"
 
 
+def sweep_problems(d, lay):
+    """Python mirror of wf_area_b / known_class_b (Proofs/AreaProofs.v): (problems, known classes) of one layout"""
+    probs, known = [], set()
+    sized = bool(d.get("sized"))
+    size = d.get("size", 0)
+
+    def chk_sreg(x, top):
+        w = x["w"]
+        if w <= 0 or w % 8:
+            probs.append(f"{x['name']}: width {w}")
+            return
+        if not 0 <= x["value"] < 1 << w or not 0 <= x["reset"] < 1 << w:
+            probs.append(f"{x['name']}: value or reset value outside {w} bits")
+        if x["alt"]:
+            known.add("alternative-widths") if top else probs.append(f"{x['name']}: sub-register with alternative widths")
+        fs = x["fields"]
+        for f in fs:
+            if f["off"] < 0 or f["w"] <= 0 or f["off"] + f["w"] > w or f["cnt"] < 0:
+                probs.append(f"{x['name']}.{f['name']}: bit-field [{f['off']}, {f['off'] + f['w']}) outside the {w}-bit register")
+        for a in range(len(fs)):
+            for b in range(a + 1, len(fs)):
+                if not (fs[a]["off"] + fs[a]["w"] <= fs[b]["off"] or fs[b]["off"] + fs[b]["w"] <= fs[a]["off"]):
+                    probs.append(f"{x['name']}: bit-fields {fs[a]['name']} and {fs[b]['name']} overlap")
+
+    for r in lay["regs"]:
+        chk_sreg(r, True)
+        for s in r["subs"]:
+            chk_sreg(s, False)
+        if r["subs"]:
+            if any(s["w"] != r["subs"][0]["w"] for s in r["subs"]):
+                probs.append(f"{r['name']}: sub-registers of different widths")
+            elif len(r["subs"]) * r["subs"][0]["w"] != r["w"]:
+                known.add("group-wider-than-its-sub-registers")
+            if r["value"] != 0:
+                probs.append(f"{r['name']}: group register with an own value")
+        a, b = reg_range(r)
+        if a < 0 or (sized and b > size):
+            probs.append(f"{r['name']}: bytes [{a}, {b}) outside the {size}-byte binary")
+    if size < 0 or (sized and (size <= 0 or d["kind"] not in PFR_KINDS)):
+        probs.append("size / kind")
+    if not 0 <= d.get("fill", 0) <= 255:
+        probs.append("fill")
+    seen = set()
+    for c in d.get("computed", []):
+        i = c["reg"][0]
+        r = lay["regs"][i]
+        if i in seen:
+            probs.append(f"{r['name']}: two computed fields")
+        seen.add(i)
+        if r["w"] != 32 or c["method"] not in ("pfr_reg_inverse_high_half", "pfr_reg_inverse_lower_8_bits"):
+            probs.append(f"{r['name']}: computed field on a {r['w']}-bit register / method {c['method']}")
+            continue
+        a, b = reg_range(r)
+        for k, o in enumerate(lay["regs"]):
+            if k != i and a < reg_range(o)[1] and reg_range(o)[0] < b:
+                probs.append(f"{r['name']}: register with a computed field overlaps {o['name']}")
+        f = r["fields"][c["field"]]
+        want = (16, 16) if c["method"] == "pfr_reg_inverse_high_half" else (8, 8)
+        if (f["off"], f["w"]) != want:
+            probs.append(f"{r['name']}.{f['name']}: computed bit-field at [{f['off']}, {f['off'] + f['w']}), the method fills "
+                         f"[{want[0]}, {want[0] + want[1]})")
+    if d.get("seal"):
+        s, n = d["seal"]
+        if s < 0 or n < 0 or s + 4 * n > size:
+            probs.append("seal words outside the binary")
+    if not sized and size:
+        end = layout_end(lay)
+        if end > size:
+            known.add("registers-beyond-documented-size")
+        elif end != size:
+            probs.append(f"register file of {end} bytes, documented size {size}")
+    return probs, known
+
+
+def sweep(rep, R):
+    """when the sweep theorem fails the offending database entry is the replay; also the measured class counts"""
+    counts = {"well-formed": 0}
+    for li, d in enumerate(R["layouts"]):
+        if d["kind"] == "tz":
+            continue
+        lay, _ = R["model_layouts"][li]
+        probs, known = sweep_problems(d, lay)
+        users = [i for i in R["instances"] if i[4] == li]
+        if probs and not known:
+            rep.failing(f"sweep:{d['kind']}:malformed-layout", f"{d['kind']} {users[0][1]}/{users[0][2]}{('/' + users[0][3]) if users[0][3] else ''} "
+                        f"({len(users)} instances): {probs[0]}",
+                        {"kind": "database-sweep", "instances": users[:20], "problems": probs[:20]})
+        if known:
+            for k in known:
+                counts[k] = counts.get(k, 0) + 1
+        elif not probs:
+            counts["well-formed"] += 1
+    return counts
+
+
 def apply_oracles(rep, case, res, R):
     """spec oracles on the implementation's own outputs; returns the number of checks made"""
     d = R["layouts"][case["layout"]]
@@ -993,11 +1099,16 @@ def apply_oracles(rep, case, res, R):
     # configured values are in the object and survive export -> parse
     if scen == "values" and case.get("touched"):
         exp = expected_raw(lay, d, case["touched"], spec_computed)
+        _, opt = R["model_layouts"][case["layout"]]
         for snapkey, stage in (("snap", "after-load"), ("snap2", "after-export-parse")):
             sn = res.get(snapkey, {}).get("ok")
             if sn is None:
                 continue
             for path, want in sorted(exp.items()):
+                if opt and stage == "after-export-parse" and path == (opt[2],):
+                    f = lay["regs"][opt[0]]["fields"][opt[1]]
+                    if (sn[opt[0]][0] >> f["off"]) & ((1 << f["w"]) - 1) == 0:
+                        continue     # XMCD: configOption1 is not part of the block while optionSize is 0
                 nchecks += 1
                 got = sn[path[0]][0] if len(path) == 1 else sn[path[0]][1 + path[1]]
                 if got != want:
@@ -1017,7 +1128,12 @@ def apply_oracles(rep, case, res, R):
                  f"the configuration produced by get_config does not load: {res['load3']}")
         elif kind == "memcfg":
             if res.get("option_words3") != res.get("option_words"):
-                fail(f"roundtrip:{kind}:config", f"option words {res.get('option_words')} -> {res.get('option_words3')}")
+                cls = "?"
+                w1, w3 = res.get("option_words", {}).get("ok"), res.get("option_words3", {}).get("ok")
+                if isinstance(w1, list) and isinstance(w3, list) and len(w1) == len(w3):
+                    vis = [i for i, r in enumerate(lay["regs"]) if not r["hidden"]]
+                    cls = "+".join(sorted({explain_diff(lay, (vis[n],), a_, b_, kind) for n, (a_, b_) in enumerate(zip(w1, w3)) if a_ != b_}))
+                fail(f"roundtrip:{kind}:config:{cls}", f"option words {res.get('option_words')} -> {res.get('option_words3')}")
         elif comp_ok and "export3" in res and res["export3"].get("ok") != e1["ok"]:
             cls = snap_diff_classes(lay, kind, res["snap"]["ok"], res["snap3"]["ok"]) \
                 if "ok" in res.get("snap", {}) and "ok" in res.get("snap3", {}) else "?"
@@ -1219,6 +1335,9 @@ def run(tier):
     if R is None:
         vlib.audit(rep)
         return rep.finish(rule="generation failed", trusted_base=[], checker_cmd="")
+    for (k_, fam_, rev_, sub_, exc_) in R.get("errors", []):
+        rep.failing(f"construct:{k_}", f"{k_} {fam_}/{rev_}{('/' + sub_) if sub_ else ''}: the area offered by the database cannot be constructed: {exc_}",
+                    {"kind": "construct", "area": k_, "family": fam_, "revision": rev_, "sub": sub_, "exception": exc_})
     # the implementation runs while Coq builds
     cases = make_cases(tier, rng, R)
     pool = concurrent.futures.ThreadPoolExecutor(max_workers=1)
@@ -1236,6 +1355,7 @@ def run(tier):
     results = fut.result()
     vlib.log(f"  implementation: {len(cases)} cases, done after {time.time() - t0:.0f} s")
     nchecks = 0
+    sweep_counts = sweep(rep, R)
     for c, r in zip(cases, results):
         nchecks += apply_oracles(rep, c, r, R)
     # model expressions (template cases use the configuration the implementation read from its own template)
@@ -1324,7 +1444,7 @@ def run(tier):
         checker_cmd="coqc -R . V Props/C12/*.v (after make Proofs/AreaProofs.vo)",
         assumptions=["settings use register and bit-field names as the template prints them", "XMCD header type fields keep the values the constructor gives them"],
         extra_cov={"oracle_checks": nchecks, "instances_in_database": len(R["instances"]), "distinct_layouts": len(R["layouts"]),
-                   "cases_per_kind": kinds, "not_modelled": unmodelled})
+                   "cases_per_kind": kinds, "not_modelled": unmodelled, "sweep_layout_classes": sweep_counts})
 
 
 if __name__ == "__main__":
